@@ -236,7 +236,12 @@ class BuiltinMixin:
     if not isinstance(obj, VObj):
       raise Unsupported('dc.replace of non-record')
     new = VObj(obj.cls, {}, obj.frozen, obj.types, tag=self.path.fresh_name(obj.tag + "'"))
-    names = set(obj.f) | set(obj.types)
+    sch = self.reg.classes.get(obj.cls)
+    ghost = sch.ghost if sch is not None else set()
+    names = {n for n in set(obj.f) | set(obj.types) if n not in ghost and not n.startswith('__')}
+    for n in names:
+      if n not in k and n not in obj.f:
+        self.getfield(obj, n)        # lazily typed field: instantiate it so that old and new share it
     for n in names:
       if n in k:
         new.f[n] = k[n]
@@ -252,6 +257,8 @@ class BuiltinMixin:
       fz, new.frozen = new.frozen, False
       self.call_repo(mod, cls, post, [new], {})
       new.frozen = fz
+    if sch is not None and sch.on_new is not None:
+      sch.on_new(self, new)
     return new
 
   lib_dc_replace = lib_dataclasses_replace
